@@ -6,7 +6,7 @@ import re
 from ..report import rule
 from .. import norm, cfg as cfgmod, guards
 from ..model import AnalysisError, self_attr_assignments
-from .common import calls_of, find_calls, returns_of, is_abstract_body, bind_args
+from .common import reconstruction_check, calls_of, find_calls, returns_of, is_abstract_body, bind_args
 
 MATCH_METHODS = ("matcher", "_matcher", "_btexts", "_compile_query", "docs", "_and_query", "_get_pattern",
                  "_find_prefix", "deletion_docs")
@@ -488,3 +488,27 @@ def c15_r8(ctx):
                     outs.add(v)
             ctx.ob(cls, not unknown and outs == {want[case]}, "%s normalises to NullQuery -> result %s" % (case, want[case]),
                    detail="returns %s (%s)" % (sorted(outs), want["why"]), loc=f.loc)
+
+
+RECON_OK = {
+    # (function, constructor parameter): why the re-created object need not carry it
+    ("query.spans.Span.to", "boost"): "a span covering two spans has no single boost to inherit; Span.boost is only set by payload-aware subclasses",
+}
+
+
+@rule("C15", "R9", "K4", "a query re-created by a rewrite keeps every setting of the original",
+      min_instances=25, also=("C09",),
+      clause="Wherever a query class builds a new object of its own class (self.__class__(...), or its own name) -- normalize, "
+             "apply/accept/replace, simplify, with_boost, _rewrap ... -- the call fits the constructor of every concrete class "
+             "that inherits the method and binds every constructor parameter that the constructor stores (minmatch, scale, "
+             "tiebreak, constantscore, per_parent_limit, score_fn, boost ...), or copies the stored attribute onto the result "
+             "afterwards (the Or.normalize idiom); an override delegating to the base method restores what its own "
+             "constructor adds.")
+def c15_r9(ctx):
+    prog = ctx.prog
+    qbase = prog.cls("query.qcore.Query")
+    classes = [c for c in prog.subclasses(qbase)]
+    span = prog.cls("query.spans.Span")
+    n = reconstruction_check(ctx, prog, classes + [span], RECON_OK)
+    if n < 25:
+        raise AnalysisError("only %d query re-construction sites found" % n)
